@@ -277,7 +277,14 @@ def corpus_api():
     move_then_large_read = [
         "file 1 F1.cgns BE w", "create 1 0 1 41", "create 1 0 2 42", "dims 1 1 C1 9000", "wall 1 1 " + a,
         "create 1 0 3 43", "move 1 0 3 2", "rall 1 1", "names 1 2 1 2", "reopen 1 r", "rall 1 1", "names 1 2 1 2", "closef 1"]
-    return [((1,), move_then_large_read)]
+    # eight children (headers 512..2852), 1222 bytes of data put the next data chunk at byte 4094 of block 0; a 9000-byte
+    # array goes there (chunks of a block or more are not moved to a block start); re-dimensioning frees it first
+    # thing: the 4-byte "FreE" tag at 4094 straddles blocks 0|1 and goes straight to disk while the write buffer is
+    # still identified, clean, on block 0 from the previous call's modification-date flush
+    free_over_clean_buffer = ["file 1 F1.cgns BE w"] + ["create 1 0 %d %02x" % (i, 0x60 + i) for i in range(1, 9)] + [
+        "dims 1 1 C1 1222", "wall 1 1 " + "62" * 1222, "dims 1 2 C1 9000", "wall 1 2 " + "63" * 9000, "dims 1 2 C1 5",
+        "wall 1 2 " + "64" * 5, "rall 1 1", "rall 1 2", "reopen 1 r", "rall 1 1", "rall 1 2", "closef 1"]
+    return [((1,), move_then_large_read), ((1,), free_over_clean_buffer)]
 
 
 def run_api(exe, hist, work, tag, timeout=240):
@@ -460,8 +467,9 @@ def run_extra(ck, pid="C02b"):
                                               oracle="bytes returned vs pread of the file overlaid with the pending write block"))
             for idx, v, tline in a["viols"]:
                 key = classify_viol(v)
-                if key.startswith("adf-cache-hole"):
-                    key += ":after-" + last_mutator(hist, api_line_of(out, idx))
+                k = api_line_of(out, idx)
+                if key.startswith("adf-cache-hole2"):       # name the earlier call that left the buffer dirty
+                    key += ":after-" + last_mutator(hist, k)
                 findings.setdefault(key, dict(pack(hist[:api_line_of(out, idx) + 1]), mode="api", monitor=v[:300], trace_event=tline[:200]))
             if a["diffs"] or not model:
                 diffs.append(("api", s, [d[1][:300] + " @ " + d[2][:120] for d in a["diffs"][:3]]))
